@@ -89,6 +89,8 @@ fn voting_thread(
                 tracks,
                 monitor,
             } => {
+                #[cfg(similari_verif)]
+                crate::verif_hook::at("v.job.start", &[scene_id]);
                 let voting = VisualVoting::new(
                     match metric_opts.positional_kind {
                         PositionalMetricType::Mahalanobis => MAHALANOBIS_NEW_TRACK_THRESHOLD,
@@ -107,11 +109,15 @@ fn voting_thread(
                         *track_id += 1;
                         *track_id
                     };
+                    #[cfg(similari_verif)]
+                    crate::verif_hook::at("v.tid", &[scene_id, tid]);
 
                     let track_id: u64 = if let Some(dest) = winners.get(&source) {
                         let (dest, vt) = dest[0];
                         if dest == source {
                             t.set_track_id(tid);
+                            #[cfg(similari_verif)]
+                            crate::verif_hook::at("v.write.add", &[scene_id, tid]);
                             store.write().unwrap().add_track(t).unwrap();
                             tid
                         } else {
@@ -122,15 +128,21 @@ fn voting_thread(
                                 Some(VisualAttributesUpdate::new_voting_type(vt)),
                             )
                             .unwrap();
+                            #[cfg(similari_verif)]
+                            crate::verif_hook::at("v.write.merge", &[scene_id, dest]);
                             store
                                 .write()
                                 .unwrap()
                                 .merge_external(dest, &t, Some(&[0]), false)
                                 .unwrap();
+                            #[cfg(similari_verif)]
+                            crate::verif_hook::at("v.merge.done", &[scene_id, dest]);
                             dest
                         }
                     } else {
                         t.set_track_id(tid);
+                        #[cfg(similari_verif)]
+                        crate::verif_hook::at("v.write.add", &[scene_id, tid]);
                         store.write().unwrap().add_track(t).unwrap();
                         tid
                     };
@@ -142,7 +154,11 @@ fn voting_thread(
                     res.push(SortTrack::from(track))
                 }
 
+                #[cfg(similari_verif)]
+                crate::verif_hook::at("v.send.before", &[scene_id]);
                 let res = channel.send((scene_id, res));
+                #[cfg(similari_verif)]
+                crate::verif_hook::at("v.send.after", &[scene_id]);
                 if let Err(e) = res {
                     warn!("Unable to send results to a caller, likely the caller already closed the channel. Error is: {:?}", e);
                 }
@@ -150,6 +166,8 @@ fn voting_thread(
                 let (lock, cvar) = &*monitor;
                 let mut lock = lock.lock().unwrap();
                 *lock -= 1;
+                #[cfg(similari_verif)]
+                crate::verif_hook::at("v.mon.dec", &[scene_id, *lock as u64]);
                 cvar.notify_one();
             }
             VotingCommands::Exit => break,
@@ -222,11 +240,15 @@ impl BatchVisualSort {
             let (lock, cvar) = &**m;
             let _guard = cvar.wait_while(lock.lock().unwrap(), |v| *v > 0).unwrap();
         }
+        #[cfg(similari_verif)]
+        crate::verif_hook::at("p.wait.done", &[]);
 
         self.monitor = Some(Arc::new((
             Mutex::new(batch_request.batch_size()),
             Condvar::new(),
         )));
+        #[cfg(similari_verif)]
+        crate::verif_hook::at("p.monitor.set", &[batch_request.batch_size() as u64]);
 
         for (i, (scene_id, observations)) in batch_request.get_batch().iter().enumerate() {
             let mut percentages = Vec::default();
@@ -250,6 +272,8 @@ impl BatchVisualSort {
 
             let mut rng = rand::thread_rng();
             let epoch = self.track_opts.next_epoch(*scene_id).unwrap();
+            #[cfg(similari_verif)]
+            crate::verif_hook::at("p.epoch", &[*scene_id, epoch as u64]);
 
             let tracks = observations
                 .iter()
@@ -293,6 +317,8 @@ impl BatchVisualSort {
                 })
                 .collect::<Vec<_>>();
 
+            #[cfg(similari_verif)]
+            crate::verif_hook::at("p.enq", &[*scene_id]);
             let (dists, errs) = {
                 let mut store = self
                     .store
@@ -302,7 +328,11 @@ impl BatchVisualSort {
             };
 
             assert!(errs.all().is_empty());
+            #[cfg(similari_verif)]
+            crate::verif_hook::at("p.drained", &[*scene_id]);
             let thread_id = i % self.voting_threads.len();
+            #[cfg(similari_verif)]
+            crate::verif_hook::at("p.dispatch", &[*scene_id, thread_id as u64]);
             self.voting_threads[thread_id]
                 .0
                 .send(VotingCommands::Distances {
